@@ -664,3 +664,242 @@ def judge_both(sc, obs, tol=1e-9):
         if abs(f - 1) > tol:
             bad.append({"live_qubit": k, "fidelity": round(f, 6), "wanted": "unchanged"})
     return bad
+
+
+# ------------------------------------------------------------------ measure-directly / RSP, both ends,
+# with a link layer that MEASURES the delivered pair in the bases it was ASKED for
+
+
+def _u_of(rot):
+    a, b, c = (x * np.pi / 16 for x in rot)
+    return _rx(c) @ _ry(b) @ _rx(a)
+
+
+class MdConn(P.PipelineConnection):
+    """One end of a measure-directly or remote-state-preparation request. The first time the creator
+    waits, the link reads the request the network stack received, measures every delivered Bell pair in
+    the rotations written there, and remembers the raw outcomes; both ends are then served from that."""
+
+    def configure(self, role, sc, link, peer_id):
+        self.role, self.sc, self.link, self.peer_id, self.delivered = role, sc, link, peer_id, 0
+
+    def _link_measure(self):
+        ex, sc, link = self.executor, self.sc, self.link
+        reqs = ex.network_stack.requests
+        if not reqs:
+            raise RuntimeError("the network stack received no create request")
+        req = reqs[-1]
+        asked_l = (req.rotation_X_local1, req.rotation_Y_local, req.rotation_X_local2)
+        asked_r = (req.rotation_X_remote1, req.rotation_Y_remote, req.rotation_X_remote2)
+        link["asked"] = (tuple(int(x) for x in asked_l), tuple(int(x) for x in asked_r))
+        link["request_type"] = req.type.name
+        link["number"] = int(req.number)
+        for i, b in enumerate(sc["bells"]):
+            ch = sc["choice"][i]
+            if sc["kind"] == "M":
+                p = joint_distribution(b, asked_l, asked_r)
+                support = sorted((c, r) for c in (0, 1) for r in (0, 1) if p[c][r] > 1e-9)
+                c, r = support[ch % len(support)]
+                link["outcomes"].append((c, r))
+            else:
+                # remote state preparation: the creator's half (a link-internal qubit) is rotated as asked
+                # and measured; the receiver's physical qubit keeps the collapsed state
+                g_c = link["n_total"] - 1 - i
+                g_r = link["offset_recv"] + (link["n_local_recv"] - 1 - i)
+                _write_pair(ex, g_c, g_r, BELL_VECS[b])
+                ex._apply1(_u_of(asked_l), g_c)
+                c = ch % 2
+                psi = ex.state.reshape([2] * ex.n)
+                part = np.take(psi, c, axis=g_c)
+                prob = float(np.sum(np.abs(part) ** 2))
+                if prob < 1e-9:
+                    c = 1 - c
+                    part = np.take(psi, c, axis=g_c)
+                    prob = float(np.sum(np.abs(part) ** 2))
+                new = np.zeros_like(psi)
+                idx = [slice(None)] * ex.n
+                idx[g_c] = 0  # the measured link qubit is left in |0>
+                new[tuple(idx)] = part / np.sqrt(prob)
+                ex.state = new.reshape(-1)
+                link["outcomes"].append((c, None))
+                link["recv_phys"].append(link["n_local_recv"] - 1 - i)
+
+    def on_wait(self):
+        ex, sc, link = self.executor, self.sc, self.link
+        before = len(ex._pending_epr_responses)
+        if before:
+            ex._handle_pending_epr_responses()
+            if len(ex._pending_epr_responses) < before:
+                return True
+        if self.delivered >= sc["n"]:
+            return False
+        if self.role == "create" and not link["outcomes"]:
+            self._link_measure()
+        i = self.delivered
+        self.delivered += 1
+        b = sc["bells"][i]
+        c, r = link["outcomes"][i]
+        if self.role == "create" or sc["kind"] == "M":
+            ex._handle_epr_response(LinkLayerOKTypeM(
+                type=ReturnType.OK_M, create_id=0, measurement_outcome=c if self.role == "create" else r,
+                measurement_basis=0, directionality_flag=0 if self.role == "create" else 1, sequence_number=i,
+                purpose_id=0, remote_node_id=self.peer_id, goodness=0, bell_state=BellState(b)))
+        else:
+            ex._handle_epr_response(LinkLayerOKTypeK(
+                type=ReturnType.OK_K, create_id=0, logical_qubit_id=link["recv_phys"][i], directionality_flag=1,
+                sequence_number=i, purpose_id=0, remote_node_id=self.peer_id, goodness=0, goodness_time=0,
+                bell_state=BellState(b)))
+        return True
+
+
+def execute_md_both(sc):
+    """Creator (`create_measure` / `create_rsp`, also through the deprecated `create(tp=…)`) and receiver
+    (`recv_measure` / `recv_rsp`) on two real executors. sc: kind 'M'|'R', n, bells, choice (which
+    possible raw outcome the link reports per pair), basis_l / basis_r (EprMeasBasis names the APPLICATION
+    asks for; basis_r only for M), via_c 'api'|'create' (deprecated entry point), via_r 'public'|'builder',
+    expect (receiver)."""
+    from netqasm.qlink_compat import EPRType
+    from netqasm.sdk.build_epr import EntRequestParams, EprMeasBasis
+    P.reset_globals()
+    n = sc["n"]
+    rots = basis_rotations()
+    rot_l = rots[sc["basis_l"]]
+    rot_r = rots[sc.get("basis_r", "Z")]
+    n_local_recv = n + 1
+    n_total = n_local_recv + n  # receiver's qubits, then the link-internal creator halves
+    shared = {}
+    link = {"outcomes": [], "recv_phys": [], "n_total": n_total, "offset_recv": 0, "n_local_recv": n_local_recv}
+    obs = {"status": "ok"}
+    conns = []
+    try:
+        ex_c = JointExecutor(shared, n_local_recv, n_total, name="alice", node_id=0)
+        ex_r = JointExecutor(shared, 0, n_total, name="bob", node_id=1)
+        shared["state"] = np.zeros(2 ** n_total, dtype=complex)
+        shared["state"][0] = 1
+        # ---- creator
+        sock_c = EPRSocket("bob")
+        conn_c = MdConn("alice", executor=ex_c, epr_sockets=[sock_c], node_ids={"alice": 0, "bob": 1},
+                        **_hardware("generic"))
+        conns.append(conn_c)
+        conn_c.configure("create", sc, link, 1)
+        bl = EprMeasBasis[sc["basis_l"]]
+        if sc["kind"] == "M":
+            br = EprMeasBasis[sc.get("basis_r", "Z")]
+            if sc.get("via_c") == "create":
+                res_c = sock_c.create(number=n, tp=EPRType.M, basis_local=bl, basis_remote=br)
+            else:
+                res_c = sock_c.create_measure(number=n, basis_local=bl, basis_remote=br)
+        else:
+            if sc.get("via_c") == "create":
+                res_c = sock_c.create(number=n, tp=EPRType.R, basis_local=bl)
+            else:
+                res_c = sock_c.create_rsp(number=n, basis_local=bl)
+        try:
+            conn_c.flush()
+        except Exception as e:  # noqa: BLE001
+            obs["status"] = "blocked" if "blocked on a wait" in str(e) else "runtime-fault"
+            obs["error"] = f"create: {type(e).__name__}: {e}"[:300]
+            return obs
+        obs["asked"] = link.get("asked")
+        obs["application"] = (rot_l, rot_r)
+        obs["request_type"] = link.get("request_type")
+        obs["creator_post_process"] = [bool(r.post_process) for r in res_c]
+        obs["creator_raw"] = [c for c, _ in link["outcomes"]]
+        outs = []
+        for r in res_c:
+            try:
+                outs.append(int(r.measurement_outcome))
+            except Exception as e:  # noqa: BLE001
+                outs.append(type(e).__name__)
+        obs["creator_out"] = outs
+        # ---- receiver
+        sock_r = EPRSocket("alice")
+        conn_r = MdConn("bob", executor=ex_r, epr_sockets=[sock_r], node_ids={"alice": 0, "bob": 1},
+                        **_hardware("generic"))
+        conns.append(conn_r)
+        conn_r.configure("recv", sc, link, 0)
+        expect = sc.get("expect", True)
+        if sc["kind"] == "M":
+            if sc.get("via_r") == "builder":
+                res_r = conn_r.builder.sdk_recv_epr_measure(params=EntRequestParams(
+                    remote_node_id=sock_r.remote_node_id, epr_socket_id=sock_r._epr_socket_id, number=n,
+                    post_routine=None, sequential=False, expect_phi_plus=expect,
+                    rotations_local=rot_r, rotations_remote=rot_l))
+            else:
+                res_r = sock_r.recv_measure(number=n, expect_phi_plus=expect)
+            qubits = []
+        else:
+            qubits = sock_r.recv_rsp(number=n, expect_phi_plus=expect)
+            res_r = []
+        try:
+            conn_r.flush()
+        except Exception as e:  # noqa: BLE001
+            obs["status"] = "blocked" if "blocked on a wait" in str(e) else "runtime-fault"
+            obs["error"] = f"recv: {type(e).__name__}: {e}"[:300]
+            return obs
+        if sc["kind"] == "M":
+            obs["receiver_raw"] = [r for _, r in link["outcomes"]]
+            outs = []
+            for r in res_r:
+                try:
+                    outs.append(int(r.measurement_outcome))
+                except Exception as e:  # noqa: BLE001
+                    outs.append(type(e).__name__)
+            obs["receiver_out"] = outs
+        else:
+            unit = ex_r._qubit_unit_modules[conn_r.app_id]
+            obs["handle_ids"] = [q.qubit_id for q in qubits]
+            obs["recv_fid"] = []
+            for i, q in enumerate(qubits):
+                ph = unit[q.qubit_id]
+                c_rep = obs["creator_out"][i]
+                if ph is None or not isinstance(c_rep, int):
+                    obs["recv_fid"].append(-1.0)
+                    continue
+                # the state Phi+ leaves on the partner when the creator's half, rotated as the
+                # APPLICATION asked, shows the outcome the creator REPORTS
+                want_pair = BELL_VECS[BellState.PHI_PLUS.value if expect else sc["bells"][i]].reshape(2, 2)
+                v = (_u_of(rot_l)[c_rep, :] @ want_pair)
+                v = v / np.linalg.norm(v)
+                rho = reduced(shared["state"], n_total, [ph])
+                obs["recv_fid"].append(float(np.real(v.conj() @ rho @ v)))
+        return obs
+    finally:
+        for c in conns:
+            _abandon(c)
+
+
+def judge_md_both(sc, obs, tol=1e-9):
+    bad = []
+    if obs["status"] != "ok":
+        return bad
+    expect = sc.get("expect", True)
+    if any(obs["creator_post_process"]):
+        bad.append({"creator_post_process": obs["creator_post_process"], "wanted": "never on the creating side"})
+    for i, (raw, out) in enumerate(zip(obs["creator_raw"], obs["creator_out"])):
+        if out != raw:
+            bad.append({"pair": i, "bell": sc["bells"][i], "creator_raw": raw, "creator_reported": out,
+                        "wanted": "the creator reports its raw outcome"})
+    if sc["kind"] == "M":
+        rot_l, rot_r = obs["application"]
+        for i, b in enumerate(sc["bells"]):
+            c, r = obs["creator_out"][i], obs["receiver_out"][i]
+            if not (isinstance(c, int) and isinstance(r, int)):
+                bad.append({"pair": i, "creator": c, "receiver": r})
+                continue
+            ref = BellState.PHI_PLUS.value if expect else b
+            p = joint_distribution(ref, rot_l, rot_r)
+            if p[c][r] <= 1e-9:
+                bad.append({"pair": i, "bell": b, "bases": [sc["basis_l"], sc.get("basis_r", "Z")],
+                            "asked_of_link": obs["asked"], "creator": c, "receiver": r,
+                            "receiver_raw": obs["receiver_raw"][i],
+                            "wanted": "an outcome pair Phi+ can give in the requested bases"
+                            if expect else "an outcome pair the delivered state can give"})
+    else:
+        for i, f in enumerate(obs["recv_fid"]):
+            if abs(f - 1) > tol:
+                bad.append({"pair": i, "bell": sc["bells"][i], "basis": sc["basis_l"],
+                            "creator_raw": obs["creator_raw"][i], "creator_reported": obs["creator_out"][i],
+                            "receiver_state_fidelity": round(f, 6),
+                            "wanted": "the state Phi+ leaves for the outcome the creator reports"})
+    return bad
